@@ -222,6 +222,31 @@ def check_file_chunks(rec, ex, tf_lazy, raw_ts):
         _viol(rec, 'agree:file.data_chunks',
               compare_parts(ex.objects[p]['type'], ex.values(p), parts[p], 'file chunks %s' % p, raw_ts))
 
+    # the same stream, but every chunk object is only looked at after the iterator has been exhausted
+    def run_collected():
+        chunks = list(tf_lazy.data_chunks())
+        parts = {p: [] for p in chans}
+        running = {p: 0 for p in chans}
+        bad = []
+        for k, chunk in enumerate(chunks):
+            for p in chans:
+                g, c = split_path(p)
+                cc = chunk[g][c]
+                if cc.offset != running[p]:
+                    bad.append('%s: chunk %d inspected after the iteration ended reports offset %d, %d values were delivered '
+                               'before it' % (p, k, cc.offset, running[p]))
+                d = cc[:]
+                parts[p].append(d)
+                running[p] += len(d)
+        return parts, bad
+    ok, got = rec.guard('access:file.data_chunks(collected)', run_collected)
+    if ok:
+        parts, bad = got
+        _viol(rec, 'chunk_offsets:file_collected', bad[:1])
+        for p in chans:
+            _viol(rec, 'agree:file.data_chunks(collected)',
+                  compare_parts(ex.objects[p]['type'], ex.values(p), parts[p], 'collected file chunks %s' % p, raw_ts))
+
 
 def check(case, rec):
     from nptdms import TdmsFile
